@@ -67,6 +67,18 @@ def nodes(fmt, obj):
     return out
 
 
+def validate_all(fmt, obj, order):
+    """Pre-step for order-sensitive validation state: run the public validate() of every node in a given order."""
+    ns = nodes(fmt, obj)
+    if order == "reverse":
+        ns = list(reversed(ns))
+    for _, _, n in ns:
+        try:
+            n.validate()
+        except Exception:
+            pass
+
+
 def measured_nodes():
     table = {}
     for fmt in samples.FORMATS:
@@ -197,7 +209,7 @@ def corrupt_document(fmt, text, obj, case):
         node = pay["variants"][label]["release"]
     elif kind in ("img.image", "img.plainimage"):
         v, a, path = label.split("|")
-        hits = [d for vv in pay["images"] for aa in pay["images"][vv] for d in pay["images"][vv][aa] if d["path"] == path]
+        hits = [d for d in pay["images"][v][a] if d["path"] == path]      # this record only, not its copies in other cells
         if not hits:
             raise core.MachineryError("image %s not found in document" % label)
         node = None
@@ -233,6 +245,8 @@ def eval_write(case):
     if case["cls"].startswith("doc:"):
         return []
     fmt, obj = _sample(case)
+    if case.get("pre"):
+        validate_all(fmt, obj, case["pre"])
     corrupt_object(fmt, obj, case["node"], case["field"], case["cls"])
     what = "%s %s[%s].%s := <%s>" % (case["sample"], case["kind"], case["label"], case["field"], case["cls"])
     try:
@@ -355,7 +369,7 @@ def eval_load(case):
     try:
         new.loads(bad)
     except Exception:
-        return []
+        return _reused(obj, text, bad, what) if case["load"] == "raises" else []
     if case["load"] == "raises":
         return ["%s: loads() returned an object instead of rejecting the document" % what]
     try:
@@ -444,8 +458,22 @@ def eval_doc(case):
     try:
         new.loads(bad)
     except Exception:
-        return []
+        return _reused(obj, text, bad, what)
     return ["%s: loads() returned an object instead of rejecting the document" % what]
+
+
+def _reused(obj, good, bad, what):
+    """The same corrupted document offered to an object that has already loaded a valid one."""
+    new = type(obj)()
+    try:
+        new.loads(good)
+    except Exception:
+        return []
+    try:
+        new.loads(bad)
+    except Exception:
+        return []
+    return ["%s: rejected by a fresh object but accepted by an object that had loaded a valid document before" % what]
 
 
 # ----------------------------------------------------------------- C18: real invalid values through dump(path)
